@@ -2,6 +2,7 @@ from vf import Query
 
 SRC = ["src/xbt/dynar.cpp"]
 OPS = ["insert_at", "remove_at", "push", "pop", "shift", "unshift", "set_at", "get", "member"]
+THOROUGH_MAX = 60  # all quick shapes + a fixed strided sample of the other thorough shapes (lib/vf.py)
 META = {
     "bounds": "xbt_dict: set / set / get_or_null (both flavours) / remove_ext sequences of at most 3 operations on a fresh dictionary with two symbolic keys of 1..2 arbitrary non-NUL bytes against a map model; xbt_dynar: element size 4 or 8 (concrete per query), capacity 0..4 (quick: 0..3), number of used slots, every element, the index and the new "
               "value symbolic; one operation per query (insert_at, remove_at, push, pop, shift, unshift, set_at_ptr, get_cpy/get_ptr, member) compared with an array model; unwind 8",
